@@ -250,8 +250,27 @@ Proof. exact cid_drop_sound. Qed.
 Theorem E2E_cc_judge_parts : forall case out, e2e_cc_judge case out = true ->
   exists rws, take_rows 8 (nz out 5) (skipn 6 out) = Some (rws, []) /\
     cc_scan (nz out 3) cc_init (filter (fun r => x_ep r =? 0) (map mk_xrow rws)) = true /\
-    cc_scan (nz out 3) cc_init (filter (fun r => x_ep r =? 1) (map mk_xrow rws)) = true.
+    cc_scan (nz out 3) cc_init (filter (fun r => x_ep r =? 1) (map mk_xrow rws)) = true /\
+    (nz out 3 = 0 ->
+     once_scan once_init (filter (fun r => x_ep r =? 0) (map mk_xrow rws)) = true /\
+     once_scan once_init (filter (fun r => x_ep r =? 1) (map mk_xrow rws)) = true).
 Proof. exact cc_judge_parts. Qed.
+
+(* C10, CUBIC: at most one window reduction per round trip *)
+Theorem E2E_cc_once_scan_sound : forall l s, once_scan s l = true ->
+  forall pre r post, l = pre ++ r :: post ->
+  (forall o, In o pre -> x_k o <> 7) -> x_k r <> 7 ->
+  once_check (fold_left once_upd pre s) r = true.
+Proof. exact once_scan_sound. Qed.
+
+Theorem E2E_cc_once_reduction_sound : forall s r, once_check s r = true ->
+  x_k r = 3 -> g_a r < o_cwnd s -> o_cong s = true ->
+  o_red_t s = -1 \/ o_red_ok s = true \/ g_a r <= 2 * o_mtu s.
+Proof. exact once_reduction_sound. Qed.
+
+Theorem E2E_cc_once_flag_rule : forall s r, o_red_ok (once_upd s r) = true -> o_red_ok s = false ->
+  x_k r = 1 /\ exists u, In u (o_sent s) /\ o_cov (g_x r) (g_a r) (g_b r) u = true /\ o_red_t s < snd u.
+Proof. exact once_flag_rule. Qed.
 
 Theorem E2E_cc_scan_sound : forall cc l s, cc_scan cc s l = true ->
   forall pre r post, l = pre ++ r :: post ->
@@ -298,6 +317,23 @@ Theorem E2E_cc_sent_sound : forall cc s r, cc_check cc s r = true -> x_k r = 0 -
   (g_c r = 1 -> g_d r = 0 -> s_bif s < s_cwnd s \/ s_after_cong s = true).
 Proof. exact cc_sent_sound. Qed.
 
+(* C04 (e2e_violate).  After the rewritten packet was built the victim closes the connection
+   itself, with a transport error that is the one RFC 9000 prescribes or PROTOCOL_VIOLATION /
+   INTERNAL_ERROR, within two network delays + 100 ms, and no wrong byte reached an application *)
+Theorem E2E_violate_judge_parts : forall case out, e2e_violate_judge case out = true ->
+  exists frows, take_rows 10 (nz out 11) (skipn 12 out) = Some (frows, []) /\
+    violate_ok {| v_injected := nz out 2; v_time := nz out 3; v_expected := nz out 4; v_delay_ms := nz out 5;
+                  v_closed := nz out 6; v_class := nz out 7; v_code := nz out 8; v_closed_us := nz out 9;
+                  v_local := nz out 10; v_flows := map mk_flow frows |} = true.
+Proof. exact violate_judge_parts. Qed.
+
+Theorem E2E_violate_sound : forall t, violate_ok t = true -> v_injected t <> 0 ->
+  v_closed t = 1 /\ v_class t = 2 /\ v_local t = 1 /\
+  (v_code t = v_expected t \/ v_code t = 10 \/ v_code t = 1) /\
+  v_closed_us t <= v_time t + 2 * v_delay_ms t * 1000 + 100000 /\
+  (forall f, In f (v_flows t) -> f_wrong f = -1).
+Proof. exact violate_sound. Qed.
+
 Print Assumptions E2E_stream_judge_parts.
 Print Assumptions E2E_c01_sound.
 Print Assumptions E2E_c01_all.
@@ -339,3 +375,8 @@ Print Assumptions E2E_cc_pending_sound.
 Print Assumptions E2E_cc_metrics_sound.
 Print Assumptions E2E_cc_bif_invariant.
 Print Assumptions E2E_cc_sent_sound.
+Print Assumptions E2E_cc_once_scan_sound.
+Print Assumptions E2E_cc_once_reduction_sound.
+Print Assumptions E2E_cc_once_flag_rule.
+Print Assumptions E2E_violate_judge_parts.
+Print Assumptions E2E_violate_sound.
